@@ -1,6 +1,6 @@
 ------------------------------- MODULE Config -------------------------------
 (* One simulation, three spellings (ladim/configure.py).  A feature vector fv describes a simulation abstractly:
-     [cont, freq, extracol, pvars, diffusion, subgrid, gridsec, wildcard, optsec, adv, ibm, xforce, v1files]
+     [cont, freq, extracol, pvars, diffusion, subgrid, gridsec, wildcard, optsec, adv, ibm, xforce, v1files, hdr]
    ibm: a user IBM (module given by path, one option) with its own instance variable "age" written to the output;
    xforce: scalar forcing "temp" carried as a further instance variable (version 1 can only declare it through the IBM's variables);
    v1files: the version 1 document names the forcing / grid files in its `files` section instead of `gridforce`
@@ -30,7 +30,8 @@ RenderV2(fv, First) ==
      grid |-> [has_file |-> fv.gridsec = "explicit", file |-> GridOnly, subgrid |-> fv.subgrid /\ fv.gridsec # "omitted"],
      forcing |-> [file |-> ForcingName(fv, First), extra |-> XForcing(fv)],
      tracker |-> [adv |-> fv.adv, diffusion |-> fv.diffusion],
-     release |-> [cont |-> fv.cont, freq |-> fv.freq, names |-> Names(fv)],
+     \* the columns of the release file: named in the document, or read from the header line of the file (fv.hdr)
+     release |-> [cont |-> fv.cont, freq |-> fv.freq, names |-> IF fv.hdr THEN <<>> ELSE Names(fv), header |-> IF fv.hdr THEN Names(fv) ELSE <<>>],
      state |-> [pvars |-> StatePVars(fv), ivars |-> StateIVars(fv)],
      optional |-> fv.optsec,                                                     \* ibm / warm_start sections: present-empty or omitted
      ibm |-> [has_module |-> fv.ibm, inc |-> IF fv.ibm THEN 2 ELSE 0],
@@ -38,7 +39,8 @@ RenderV2(fv, First) ==
 MeanV2(d, First) ==          \* First = the first forcing file in name order (sorted glob)
    [ gridfile |-> IF d.has_grid /\ d.grid.has_file THEN d.grid.file ELSE First,
      subgrid |-> d.has_grid /\ d.grid.subgrid, forcing |-> d.forcing.file, adv |-> d.tracker.adv, diffusion |-> d.tracker.diffusion,
-     cont |-> d.release.cont, freq |-> IF d.release.cont THEN d.release.freq ELSE 0, names |-> d.release.names,
+     cont |-> d.release.cont, freq |-> IF d.release.cont THEN d.release.freq ELSE 0,
+     names |-> IF d.release.names = <<>> THEN d.release.header ELSE d.release.names,
      state_pvars |-> d.state.pvars, out_ivars |-> d.output.ivars, out_pvars |-> d.output.pvars,
      state_ivars |-> d.state.ivars, has_ibm |-> d.ibm.has_module, ibm_inc |-> d.ibm.inc, extra_forcing |-> d.forcing.extra ]
 
